@@ -39,6 +39,7 @@ def main():
         from rules import core, engine, roles as roles_mod, props
         try:
             crates = core.extract(repo=dst, workspace=True)
+            props.normalise(crates)
         except SystemExit as e:
             print(name, "EXTRACTION-FAILED", e)
             return 2
